@@ -906,6 +906,15 @@ def fam_findings():
     add([('expr', ('bin', '%', N(5), ('num', '0.5', 1, 1)))])
     add([('var', 'va', N(7)), ('set', '%=', V('va'), ('num', '0.25', 1, 2)), ('expr', V('va'))])
     add([('expr', ('arr', [('bin', '%', N(5), ('num', '1.5', 3, 1)), ('bin', '%', ('num', '7.5', 15, 1), N(2)), ('bin', '%', ('neg', N(7)), N(3))]))])
+    # `using` of a null value: the next lookup that reaches the imports dereferences a null Object::Ptr (F-C15-f)
+    add([('using', ('null',)), ('expr', V('foo'))])
+    add([('var', 'va', ('null',)), ('using', V('va')), ('expr', C('len', S('abc')))])
+    add([('var', 'va', ('dict', [])), ('using', ('dot', V('va'), 'nosuch')), ('try', [('set', '=', V('kz'), N(1))], [('var', 'vb', S('caught'))]), ('expr', N(1))])
+    add([('var', 'va', ('dict', [('ka', N(1))])), ('using', V('va')), ('using', ('null',)), ('try', [('var', 'vb', V('kb'))], [('var', 'vb', S('caught'))]), ('expr', V('vb'))])
+    # neighbours that are fine: no lookup reaches the null import (locals / this / an earlier import answer first; no lookup at all)
+    add([('using', ('null',)), ('expr', ('bin', '+', N(1), N(2)))])
+    add([('var', 'va', N(1)), ('set', '=', ('dot', ('this',), 'kt'), N(2)), ('using', ('null',)), ('expr', ('arr', [V('va'), V('kt'), ('dot', ('locals',), 'va')]))])
+    add([('var', 'va', ('dict', [('ka', N(1))])), ('using', V('va')), ('using', ('null',)), ('expr', V('ka'))])
     return cs
 
 
@@ -1397,11 +1406,16 @@ def fam_hostile(rnd, n_mut, n_rand):
     # although they stay below (or are stopped by) the 300-level depth limit, and the recorded crash reproducers
     CRASHES = {('nest:dict:200', 'coro'), ('nest:leftdeep:20000', 'coro'), ('nest:dots:20000', 'coro'), ('nest:index:20000', 'coro'),
                ('recursion:plain', 'coro'), ('recursion:selfapply', 'coro')}
-    def add(src, tag, modes=('main', 'thread', 'coro'), iso=False, want=None):
+    def add(src, tag, modes=('main', 'thread', 'coro'), iso=False, want=None, show=None, bad=None, sb=False):
         if isinstance(src, str): src = src.encode('latin-1', 'replace')
         for m in modes:
-            crash = (tag, m) in CRASHES or tag.startswith('known:')
-            cases.append({'lines': ['dsl_hostile src=%s mode=%s tag=%s%s%s' % (hx(src), m, tag, ' iso=1' if (iso or m == 'coro') else '', ' expect=crash' if crash else (' want=' + want if want else ''))],
+            crash = (tag, m) in CRASHES or (tag.startswith('known:') and bad is None)
+            opts = ' iso=1' if (iso or m == 'coro') else ''
+            if sb: opts += ' sb=1'
+            if crash: opts += ' expect=crash'
+            elif bad is not None: opts += ' want=x show=1 bad=' + hx(bad)
+            elif want: opts += ' want=' + want + (' show=' + hx(show) if show is not None else '')
+            cases.append({'lines': ['dsl_hostile src=%s mode=%s tag=%s%s' % (hx(src), m, tag, opts)],
                           'tags': {'family': 'hostile-' + tag.split(':')[0], 'src': src.decode('latin-1')[:200]}})
     # deep nesting for the parser and the recursive evaluator
     for n in (200, 20000):
@@ -1436,6 +1450,25 @@ def fam_hostile(rnd, n_mut, n_rand):
                       ('var v = 1\nvar p = &v\n*p = 2\nv\n', 'value'), ('var v = 1\nvar p = &v\n(*p)(1)\n', 'error'),
                       ('var d = { a = 1 }\nvar p = &d\n(*p).a = 2\n*p\n', 'value'), ('var v = 3\nvar p = &v\n*p += 4\nv\n', 'value')):
         add(src, 'deref:neighbour', want=want)
+    # `using null` + a lookup that reaches the imports: null Object::Ptr dereferenced in VMOps::FindVarImportRef (F-C15-f), on every stack
+    add('using null\nfoo\n', 'known:null-import', ('main', 'thread', 'coro'), True)
+    add('var d = {}\nusing d.x\nlen("a")\n', 'known:null-import', ('main',), True)
+    for src, want, show in (('using null\n1 + 2\n', 'value', '3'), ('var a = 4\nusing null\na\n', 'value', '4'), ('using 5\nfoo\n', 'error', None), ('using [ ]\nfoo\n', 'error', None),
+                            ('var d = { foo = 7 }\nusing d\nusing null\nfoo\n', 'value', '7')):
+        add(src, 'using:neighbour', ('main', 'coro'), want=want, show=show)
+    # intersection() with three or more arguments: the running result doubles as input and is padded with nulls when a later
+    # array is longer (F-C15-g) - wrong values / a spurious error; the neighbours with shorter later arrays are right
+    for src, badline in (('intersection([-5], [-5], [-5, 0, 7])\n', 'hostile value [-5,null]'), ('intersection([1], [2], [0, 5])\n', 'hostile value [null]'),
+                         ('intersection(["a"], ["a"], ["a", "b"])\n', 'hostile error')):
+        add(src, 'known:isect-alias', ('main',), bad=badline)
+    for src, show in (('intersection([3], [3], [1, 2, 3])\n', '[3]'), ('intersection([1, 2, 3], [3, 2, 1], [2, 3])\n', '[2,3]'), ('intersection([5, 1], [1, 5], [5], [5])\n', '[5]'),
+                      ('intersection([1, 2], [1, 2], null)\n', '[1,2]'), ('intersection([1, 2])\n', '[]'), ('union([2, 1], [3, 1], null)\n', '[1,2,3]')):
+        add(src, 'isect:neighbour', ('main',), want='value', show=show)
+    # the new constructs under a sandboxed frame (as API filters are evaluated): definitions are refused, reads are fine
+    for src, want, show in (('const Cx = 5\n', 'error', None), ('namespace Nq { a = 1 }\n', 'error', None), ('var x = 1\n', 'error', None), ('typeof(1) == Number\n', 'value', 'true'),
+                            ('match("a*", "abc")\n', 'value', 'true'), ('union([2, 1], [1])\n', 'value', '[1,2]'), ('Json.decode("[1]")\n', 'value', '[1]'), ('&this\n', 'error', None),
+                            ('using { a = 1 }\na\n', 'error', None), ('Json.encode([1, { }])\n', 'value', '"[1,{}]"'), ('Json.encode([1, { a = 1 }])\n', 'error', None), ('*null\n', 'error', None), ('intersection([1], [1])\n', 'value', '[1]')):
+        add(src, 'sandbox:new', ('main',), want=want, show=show, sb=True)
     # mutated programs
     done = 0
     while done < n_mut:
@@ -1456,7 +1489,7 @@ def fam_hostile(rnd, n_mut, n_rand):
         add(bytes(src), 'mutated', (rnd.choice(['main', 'thread', 'coro']),))
     kw = [b'var ', b'function ', b'if (', b'else ', b' in ', b'=> ', b'use(', b'{{{', b'}}}', b'{{', b'}}', b'/*', b'*/', b'//', b'#',
           b'"', b'\\', b'\n', b'0x', b'1e9', b'5m', b'.5', b'object ', b'apply ', b'import ', b'include ', b'<a>', b'!in ', b'return ', b'throw ', b'try ', b'except ',
-          b'namespace ', b'using ', b'const ', b'library ', b'current_line', b'debugger', b'&', b'*', b'null', b'this', b'locals', b'globals', b'template ', b'assign where ']
+          b'namespace ', b'using ', b'const ', b'library ', b'typeof(', b'union(', b'intersection(', b'match(', b'Json.encode(', b'Json.decode(', b'MatchAny', b'Number', b'String(', b'.get()', b'.set(', b'current_line', b'debugger', b'&', b'*', b'null', b'this', b'locals', b'globals', b'template ', b'assign where ']
     for _ in range(n_rand):
         if rnd.random() < 0.5:
             src = bytes(rnd.randrange(256) for _ in range(rnd.randint(1, 60)))
@@ -1551,6 +1584,7 @@ def classify(case, detail, impl_lines):
         if 'model=abort:cycle' in detail: return 'cyclic-traversal'
         if 'model=abort:nullimport' in detail: return 'using-null-import'
         if 'tag=known:cyclic-json' in detail: return 'cyclic-traversal'
+        if 'tag=known:null-import' in detail: return 'using-null-import'
         if 'hostile' in detail:
             m = re.search(r'tag=(\S+)', detail)
             tag = m.group(1) if m else 'hostile'
